@@ -144,6 +144,12 @@ class BehavioralRTLIRTypeCheckVisitorL3( BehavioralRTLIRTypeCheckVisitorL2 ):
       if v_dtype != field:
         if is_field_reinterpretable:
           target_nbits = field.get_length()
+          # An implicitly sized argument (integer literal / constant) that needs
+          # more bits than the field has would be silently truncated by the enforcer.
+          if isinstance( v_dtype, rdt.Vector ) and v_dtype.get_length() > target_nbits:
+            raise PyMTLTypeError( s.blk, node.ast,
+              f'Field {name} of BitStruct {cls.__name__} has {target_nbits} bits but '
+              f'the integer literal given as argument#{idx+1} requires more bits ({v_dtype.get_length()})!' )
           s.enforcer.enter( s.blk, rt.NetWire(rdt.Vector(target_nbits)), value )
         else:
           raise PyMTLTypeError( s.blk, node.ast,
